@@ -218,6 +218,11 @@ func parseRangeWithoutLength(s string) ([]ByteRange, error) {
 			if i < 0 || err != nil {
 				return nil, errors.New("invalid range")
 			}
+			if i == 0 {
+				// A suffix of length 0 selects no byte (and -0 would
+				// read as "from 0"): see parseRange.
+				continue
+			}
 			r.From = -i
 		} else {
 			i, err := strconv.ParseInt(start, 10, 64)
